@@ -216,8 +216,11 @@ def gen_history(rng, nops, files=(1,), backend="BE", big=False, wide=False, path
         elif r < 0.45 and data_nodes:
             u = rng.choice(data_nodes); n = m.nodes[u]
             sel = rand_sel(rng, n["dims"]); cnt = sel_count(sel)
-            if cnt > 1500:
+            # the extracted model addresses each selected element in a byte LIST: its cost is elements x node bytes
+            if cnt > min(1500, max(8, 30000000 // max(1, prod(n["dims"]) * TYPES[n["dt"]]))):
                 sel = [(1, min(d, 5), 1) for d in n["dims"]]; cnt = sel_count(sel)
+                if cnt > 8 and prod(n["dims"]) * TYPES[n["dt"]] > 3000000:
+                    sel = [(1, min(d, 2), 1) for d in n["dims"]]; cnt = sel_count(sel)
             md, ms = mem_for(rng, cnt)
             lines.append("wsel %d %d %s %s %s %s" % (f, u, sel_str(sel), ",".join(map(str, md)), sel_str(ms),
                                                      rng.randbytes(prod(md) * TYPES[n["dt"]]).hex()))
@@ -264,8 +267,11 @@ def gen_history(rng, nops, files=(1,), backend="BE", big=False, wide=False, path
         elif r < 0.64 and written:
             u = rng.choice(written); n = m.nodes[u]
             sel = rand_sel(rng, n["dims"]); cnt = sel_count(sel)
-            if cnt > 1500:
+            # the extracted model addresses each selected element in a byte LIST: its cost is elements x node bytes
+            if cnt > min(1500, max(8, 30000000 // max(1, prod(n["dims"]) * TYPES[n["dt"]]))):
                 sel = [(1, min(d, 5), 1) for d in n["dims"]]; cnt = sel_count(sel)
+                if cnt > 8 and prod(n["dims"]) * TYPES[n["dt"]] > 3000000:
+                    sel = [(1, min(d, 2), 1) for d in n["dims"]]; cnt = sel_count(sel)
             md, ms = mem_for(rng, cnt)
             lines.append("rsel %d %d %s %s %s %s" % (f, u, sel_str(sel), ",".join(map(str, md)), sel_str(ms),
                                                      (b"\xee" * (prod(md) * TYPES[n["dt"]])).hex()))
@@ -596,6 +602,8 @@ def run_three(history, workdir, tag, exe, timeout=180):
         s = instantiate(history, be, workdir, tag)
         text = "\n".join(s) + "\n"
         il, outcome, stack = vlib.run_impl(exe, text, timeout=timeout, want_stack=True)
+        if os.environ.get("NODEDB_DUMP"):
+            open(os.path.join(os.environ["NODEDB_DUMP"], "%s_%s.script" % (tag, be)), "w").write(text)
         ml = vlib.run_model("c02", text)
         cleanup(s)
         out[be] = dict(lines=il, outcome=outcome, stack=stack, model=ml, script=s)
